@@ -1,5 +1,6 @@
 import Solvor.Cp.Model
-/-! Cp: property theorems only (helper lemmas live in Lemmas.lean). -/
+import Solvor.Cp.DpllLemmas
+/-! Cp: property theorems only (helper lemmas live in Lemmas.lean / DpllLemmas.lean). -/
 namespace Solvor.Cp
 
 end Solvor.Cp
